@@ -496,12 +496,12 @@ class Data(object):
                             self._get_score_cache[i][field] = self._get_score_cache[j][field]
                             break
         else:
+            if field == verif.field.Fcst():
+                field = self._fcst_field
+
             # Check if data is cached
             if field in self._get_score_cache[input_index]:
                 return self._get_score_cache[input_index][field]
-
-            if field == verif.field.Fcst():
-                field = self._fcst_field
 
             for i in range(num_inputs):
                 if field not in self._get_score_cache[i]:
